@@ -577,6 +577,8 @@ def rule_hash_order(ctx, rep):
                    "attribute or emitted by to_json")
     fx = ast.parse("def f(ctx, s: Set[str]):\n    ctx.possible_addr = list(s - set(['A']))\n    ctx.x = sorted(s)\n")
     rep.require(len(order_sites(fx)) == 1, "E-ORDER does not recognise its positive fixture")
+    fx4 = ast.parse("class S:\n    def callees(self):\n        return list(set(b.callee for b in self._blocks if b.is_call))\n")
+    rep.require(any(k == "unknown-elements" for _, _, k in order_sites(fx4)), "E-ORDER does not recognise its address-order fixture")
     n = 0
     stab = enum_hash_stability(ctx)
     STABLE_ENUMS.clear()
@@ -625,7 +627,13 @@ def rule_hash_order(ctx, rep):
                         return True
                     return False
                 worklist = bool(uses) and all(_wl(u) for u in uses) and any(isinstance(parent.get(u), ast.Attribute) and parent[u].attr == "pop" for u in uses)
-            if kind == "unstable" and not wrapped_sorted and not worklist:
+            escapes = isinstance(st, ast.Return) or (isinstance(st, ast.Assign) and any(isinstance(t, ast.Attribute) for t in st.targets))
+            if kind == "unknown-elements" and escapes and not wrapped_sorted and not worklist:
+                # a set of objects (hashed by address) turned into a list that leaves the function: its order changes from run to run
+                rep.violation(rule, f"{modname}:{fn.name}: {ast.unparse(node)[:60]}", f"{ctx.path(modname)}:{node.lineno}", ast.unparse(st)[:100],
+                              "a list built in a deterministic order (first occurrence, or sorted by a key)",
+                              "the order of a list built from a set of objects follows their memory addresses: whatever is derived from it changes from run to run")
+            elif kind == "unstable" and not wrapped_sorted and not worklist:
                 rep.violation(rule, f"{modname}:{fn.name}: {ast.unparse(node)[:60]}", f"{ctx.path(modname)}:{node.lineno}", ast.unparse(st)[:100], "sorted(...)",
                               "the order of the stored list changes with the interpreter's hash seed")
             else:
